@@ -61,6 +61,7 @@ pub async fn query_config_list(
 }
 
 pub async fn query_history_config_page(
+    req: HttpRequest,
     request: web::Query<OpsConfigQueryListRequest>,
     config_addr: web::Data<Addr<ConfigActor>>,
 ) -> impl Responder {
@@ -70,6 +71,15 @@ pub async fn query_history_config_page(
             return HttpResponse::InternalServerError().body(err.to_string());
         }
     };
+    let namespace_privilege = user_namespace_privilege!(req);
+    if !namespace_privilege
+        .check_option_value_permission(&(param.tenant.clone().map(Arc::new)), false)
+    {
+        return HttpResponse::Unauthorized().body(format!(
+            "user no such namespace permission: {:?}",
+            &param.tenant
+        ));
+    }
     let cmd = ConfigCmd::QueryHistoryPageInfo(Box::new(param));
     match config_addr.send(cmd).await {
         Ok(res) => {
@@ -228,6 +238,7 @@ pub async fn download_config(
 
 /// 按 key 导出配置
 pub async fn download_config_by_keys(
+    req: HttpRequest,
     request: web::Json<Vec<ConfigParams>>,
     config_addr: web::Data<Addr<ConfigActor>>,
 ) -> impl Responder {
@@ -236,7 +247,7 @@ pub async fn download_config_by_keys(
         return HttpResponse::BadRequest().body("keys cannot be empty");
     }
 
-    let keys = params
+    let keys: Vec<ConfigKey> = params
         .into_iter()
         .map(|k| {
             let k = k.to_key();
@@ -246,6 +257,15 @@ pub async fn download_config_by_keys(
             }
         })
         .collect();
+    let namespace_privilege = user_namespace_privilege!(req);
+    for key in &keys {
+        if !namespace_privilege.check_permission(&key.tenant) {
+            return HttpResponse::Unauthorized().body(format!(
+                "user no such namespace permission: {}",
+                key.tenant.as_str()
+            ));
+        }
+    }
 
     let cmd = ConfigCmd::QueryInfoByKeys(Box::new(keys));
     match config_addr.send(cmd).await {
